@@ -1274,6 +1274,9 @@ def _enumerate_inputs(o: Ob, budget: int):
         return (tuple(list(t) + pad) for t in itertools.product(*[range(n) for n in sizes]))
     if o.fn == 'k8_rendered_report':
         return itertools.product(*[range(max(1, len(a))) for a in _k8_alts(c)])
+    if o.fn == 'k9_error_source_lines':
+        inds = [''.join(t) for t in itertools.product(c['alphabet'], repeat=c['n'])] if c['n'] <= 3 else [c['alphabet'][0] * c['n']]
+        return ((ind, k) for ind in inds for k in range(0, len(c['body']) + 2))
     raise ValueError(o.fn)
 
 
@@ -1292,7 +1295,8 @@ def selftest(tier: str) -> int:
         fn = getattr(mod, o.fn)
         pre = {'k1_parse_source': _pre_k1, 'k2_line_syntax': _pre_k2, 'k3_document': _pre_k3,
                'k5_act_unescape': _pre_k5, 'k4_test_case': _pre_k4, 'k4_permutation': _pre_k4,
-               'k6_instruction_element': _pre_k6, 'k7_header_delimits': _pre_k7, 'k8_rendered_report': _pre_k8}[o.fn]
+               'k6_instruction_element': _pre_k6, 'k7_header_delimits': _pre_k7, 'k8_rendered_report': _pre_k8,
+               'k9_error_source_lines': _pre_k9}[o.fn]
         witnessed = False
         for args in itertools.islice(_enumerate_inputs(o, per_ob), per_ob):
             if not pre(*args):
